@@ -73,6 +73,7 @@ type atClause struct {
 	cl   *clause
 	stmt string
 	nth  int
+	used bool
 }
 
 type funcContract struct {
